@@ -337,6 +337,7 @@ func ruleL16Rootness(p *Prog, r *Report, count *int) {
 			}
 			// after: every success exit after the call passes a re-basing (or leaves through a not-data edge)
 			var exit ssa.Instruction
+			failing := false
 			reachFrom(f, in, notDataEdge, func(z ssa.Instruction) bool {
 				if exit != nil {
 					return true
@@ -347,13 +348,22 @@ func ruleL16Rootness(p *Prog, r *Report, count *int) {
 				if ret, ok := z.(*ssa.Return); ok {
 					if cl, _ := classifyReturn(ret); cl != retError {
 						exit = z
+					} else if !isFreshBase(resolveObj(rv)) {
+						// the object lives on after a failure (it is the container's slab, not one this function made):
+						// the transfer and the re-basing are one step, and a failure between them leaves the slab
+						// with the extra data of one state and the prefix of the other
+						exit, failing = z, true
 					}
 					return true
 				}
 				return false
 			})
 			if exit == nil {
-				r.Ok(R, cons, p.InstrPos(in), "every success path after the transfer on which the object is a data slab re-bases its cached size in the matching direction")
+				r.Ok(R, cons, p.InstrPos(in), "every path after the transfer on which the object is a data slab re-bases its cached size in the matching direction (failure exits included when the object outlives the call)")
+				return
+			}
+			if failing {
+				r.Bad(R, cons, p.InstrPos(in), "the slab's root-ness changes here and its cached size is re-based only later: the failure exit at "+p.InstrPos(exit)+" lies between the two, and the slab - which stays in the container - would keep the prefix of the state it has left, reporting a size its encoding does not have")
 				return
 			}
 			r.Bad(R, cons, p.InstrPos(in), "the slab's root-ness changes here, but on some path on which it is a data slab its cached size is not re-based (the re-basing in this function is on another path or guarded by a condition that is not 'is a data slab'): the slab would report the prefix of the state it has left")
